@@ -107,6 +107,7 @@ func init() {
 	registerJSON()
 	registerPureStr()
 	registerBytesBuffer()
+	registerSyncPool()
 }
 
 // ---------- pure string -> string library functions on symbolic arguments ----------
